@@ -358,7 +358,18 @@ func cmdBPF(args []string) int {
 // symbolic ones evaluated under the model. Returns "" when they agree.
 func replayCheck(in *Interp, cfg *Config, prog string, ep [2]string, L int, run *BPFRun, verdict uint64, mkEnv func(*Interp, *LLObj) *LLEnv) (msg string) {
 	in.ensureModel()
-	model := in.path.model
+	// variables younger than the model are not constrained by the path condition: complete the model with zeros
+	model := map[string]uint64{}
+	for k, v := range in.path.model {
+		model[k] = v
+	}
+	for _, r := range in.path.nd {
+		if r.T != nil {
+			if _, ok := model[r.T.Name]; !ok {
+				model[r.T.Name] = 0
+			}
+		}
+	}
 	wit := in.witness(model)
 	if len(wit) < L+1 || wit[0].Tag != "pkt.len" {
 		return "replay: unexpected witness layout"
@@ -406,7 +417,7 @@ func replayCheck(in *Interp, cfg *Config, prog string, ep [2]string, L int, run 
 		b1, ok := ev(run.Packet.Bytes[i])
 		b2 := run2.Packet.Bytes[i]
 		if !ok || !b2.IsConst() || b1 != b2.V {
-			return fmt.Sprintf("replay packet byte %d is %v, symbolic run has %d under the model", i, b2.V, b1)
+			return fmt.Sprintf("replay packet byte %d is %v (const=%v), symbolic run has %d (ok=%v) under the model", i, b2.V, b2.IsConst(), b1, ok)
 		}
 	}
 	for _, mn := range sortedMapNames(run.Env.Maps) {
@@ -769,8 +780,11 @@ func cmdBPFSelftest(args []string) int {
 	}
 	rc := 0
 	for _, prog := range strings.Split(*progs, ",") {
-		if r := selftestProg(prog, *n, *seed, *capacity, tmp); r > rc {
-			rc = r
+		// second pass: if-conversion forced on every eligible branch (validates the merging logic on concrete data)
+		for _, mode := range []string{"", "force"} {
+			if r := selftestProg(prog, *n, *seed, *capacity, tmp, mode); r > rc {
+				rc = r
+			}
 		}
 	}
 	if rc == 0 {
@@ -781,7 +795,7 @@ func cmdBPFSelftest(args []string) int {
 	return rc
 }
 
-func selftestProg(prog string, n int, seed int64, capacity int, tmp string) int {
+func selftestProg(prog string, n int, seed int64, capacity int, tmp string, ifconv string) int {
 	t0 := time.Now()
 	mod, err := loadBPFModule(prog)
 	if err != nil {
@@ -895,6 +909,35 @@ func selftestProg(prog string, n int, seed int64, capacity int, tmp string) int 
 						c.init[mname] = append(c.init[mname], stEntry{key, val})
 						continue
 					}
+					if m.Type == bpfMapLpmTrie && m.KeySize == 8 && caseSeed%2 == 0 {
+						// preloaded prefixes (some derived from the packet's IPv4 source address so that they match)
+						r2 := rand.New(rand.NewSource(int64(fnv64([]byte(mname)) ^ caseSeed)))
+						for k := 0; k < 3; k++ {
+							key := make([]byte, 8)
+							key[0] = byte(r2.Intn(33))
+							if r2.Intn(3) != 0 && len(c.pkt) >= 30 {
+								copy(key[4:], c.pkt[26:30])
+							} else {
+								r2.Read(key[4:])
+							}
+							if r2.Intn(2) == 0 { // garbage beyond the prefix must not matter
+								key[7] ^= byte(r2.Intn(2))
+							}
+							dup := false
+							for _, e := range c.init[mname] {
+								if string(e.key) == string(key) {
+									dup = true
+								}
+							}
+							if dup {
+								continue
+							}
+							val := biasedBytes(r2, m.ValSize)
+							m.Entries = append(m.Entries, &LLMapEntry{Key: toTerms(key), Val: &LLObj{Name: fmt.Sprintf("%s.value#p%d", mname, k), Bytes: toTerms(val)}})
+							c.init[mname] = append(c.init[mname], stEntry{key, val})
+						}
+						continue
+					}
 					if m.hashLike() || m.Type == bpfMapLpmTrie {
 						m.OnMissFn = func(m *LLMap, key []*Term) []*Term {
 							kb, ok := termBytes(key)
@@ -911,7 +954,7 @@ func selftestProg(prog string, n int, seed int64, capacity int, tmp string) int 
 						}
 					}
 				}
-				env := &LLEnv{Packet: pkt, Maps: ms, Now: tc.Const(c.now, 64), Choose: func(string) bool { return true }, Cover: cover}
+				env := &LLEnv{Packet: pkt, Maps: ms, Now: tc.Const(c.now, 64), Choose: func(string) bool { return true }, Cover: cover, IfConversion: ifconv}
 				run, _ := in.RunBPF(prog, ep[0], ep[1], env)
 				if !run.Verdict.IsConst() || !pkt.Len.IsConst() {
 					c.problem = "symbolic verdict or length in a concrete run"
@@ -1103,7 +1146,7 @@ func selftestProg(prog string, n int, seed int64, capacity int, tmp string) int 
 	if runErr != nil || stderr.Len() > 0 {
 		fmt.Printf("selftest %s: native driver: err=%v stderr:\n%s\n", prog, runErr, firstLines(stderr.String(), 40))
 	}
-	fmt.Printf("selftest %s: IR side %.1fs, total %.1fs, if-converted branches %d\n", prog, irTime.Seconds(), time.Since(t0).Seconds(), nMerged)
+	fmt.Printf("selftest %s (if-conversion %q): IR side %.1fs, total %.1fs, if-converted branches %d\n", prog, ifconv, irTime.Seconds(), time.Since(t0).Seconds(), nMerged)
 	if fails > 0 || problems > 0 || runErr != nil {
 		return 1
 	}
